@@ -7,7 +7,7 @@ from vlib.core import Part, Violation, Discard, call
 from vlib.models import TableGrader
 
 from mitxgraders import (StringGrader, FormulaGrader, NumericalGrader, MatrixGrader, SingleListGrader, ListGrader)
-from mitxgraders.comparers import LinearComparer
+from mitxgraders.comparers import LinearComparer, MatrixEntryComparer
 from mitxgraders.exceptions import MITxError, InvalidInput
 from mitxgraders.sampling import set_seed
 
@@ -82,7 +82,13 @@ COMPARERS = {
     'sign': lambda: sign_comparer,
     'linear': lambda: LinearComparer(),
     'linear-offset': lambda: LinearComparer(proportional=0.5, offset=0.3, offset_msg='off by a constant'),
+    'entry-prop': lambda: MatrixEntryComparer(entry_partial_credit='proportional'),
+    'entry-half': lambda: MatrixEntryComparer(entry_partial_credit=0.5, entry_partial_msg='some entries'),
 }
+# An author may put ONE comparer object into several alternatives and several graders.  While _SHARE is a dict the
+# entry comparers of a case are such shared objects (used by the full graders in every order and, first, by a grader
+# with a very different tolerance); the single-alternative reference graders always get fresh objects.
+_SHARE = None
 
 
 class RaisingTable(TableGrader):
@@ -111,6 +117,10 @@ def decode(o):
         if '$tuple' in o:
             return tuple(decode(x) for x in o['$tuple'])
         if '$cmp' in o:
+            if _SHARE is not None and o['$cmp'].startswith('entry'):
+                cmp_obj = _SHARE.setdefault(o['$cmp'], None) or COMPARERS[o['$cmp']]()
+                _SHARE[o['$cmp']] = cmp_obj
+                return {'comparer': cmp_obj, 'comparer_params': list(o['params'])}
             return {'comparer': COMPARERS[o['$cmp']](), 'comparer_params': list(o['params'])}
         return {k: decode(v) for k, v in o.items()}
     return o
@@ -361,13 +371,28 @@ def run_item(kind, opts, alts, wrong, inputs, orders, seed, rec, untupled=False)
             rec.cls('orders/all-24')
     else:
         rec.cls('orders/24-sampled')
-    for oi, order in enumerate(orders):
-        g = make(kind, opts, answers=answers_of(alts, order, oi, untupled), wrong=wrong)
-        for inp, want in zip(inputs, wants):
-            set_seed(seed)
-            status, r = call(g, None, inp)
-            rec.calls()
-            check_result(want, status, r, wrong, '', {'order': order, 'input': inp})
+    global _SHARE
+    shared = kind == 'M' and any(isinstance(e, dict) and str(e.get('$cmp', '')).startswith('entry')
+                                 for a in alts for e in a['e'])
+    try:
+        if shared:
+            _SHARE = {}
+            rec.cls('entry-comparer-object-shared')
+            for tol in (1e6, 0):
+                warm = make(kind, dict(opts, tolerance=tol), answers=answers_of(alts, orders[0], 0, untupled))
+                for inp in inputs:
+                    set_seed(seed)
+                    call(warm, None, inp)
+                    rec.calls()
+        for oi, order in enumerate(orders):
+            g = make(kind, opts, answers=answers_of(alts, order, oi, untupled), wrong=wrong)
+            for inp, want in zip(inputs, wants):
+                set_seed(seed)
+                status, r = call(g, None, inp)
+                rec.calls()
+                check_result(want, status, r, wrong, '', {'order': order, 'input': inp})
+    finally:
+        _SHARE = None
     rec.cls('kind/' + kind)
     if any(len(a['e']) > 1 or a.get('tup') for a in alts):
         rec.cls('expect-tuple')
@@ -564,6 +589,8 @@ def draw_entry(draw, prof):
         if kind != 'M' and chance(draw, 22):
             cmps = N_CMPS if kind == 'N' else F_CMPS_ABS if prof['opts'].get('tolerance') == 0.001 else F_CMPS
             return {'$cmp': pick(draw, cmps), 'params': [form]}
+        if kind == 'M' and chance(draw, 30):
+            return {'$cmp': pick(draw, ['entry-prop', 'entry-half']), 'params': [form]}
         return form
     if kind == 'T':
         return pick(draw, prof['names'])
